@@ -440,7 +440,7 @@ Hypothesis G_skip : C -> forall ev d r e tr, neutral ev = true -> GP d r e tr ->
 Hypothesis G_forest : C -> (mode =? 0) = false -> forall start ends sid parent d r e tr, (* in-section *)
   GP d r e tr -> GP d r e (EvAdd start ends sid parent :: tr).
 Hypothesis G_base : C -> (mode =? 0) = true -> forall s sym start ends r, (* in-section *)
-  Inv T C GP s -> rule_good T r -> (running s = true -> labelled T (cdb s) sym start ends r) ->
+  Inv T C GP s -> rule_good T r -> (running s = true -> labelled T (used T C pack) (cdb s) sym start ends r) ->
   Gs GP s -> Gs GP (base_add T (emit (EvAdd start ends (r_sid r) (r_parent r)) s) start ends r).
 Hypothesis G_init : C -> GP init [] [] []. (* in-section *)
 Hypothesis G_forget : C -> forall d r e tr, GP d r e tr -> GP d r e []. (* in-section *)
